@@ -252,6 +252,11 @@ func pureExtern(desc string, nonNilResults bool) *intrinsicDef {
 			if nonNilResults && sv.Sort == "Iface" {
 				g.assumeHere(fmt.Sprintf("(not (= (if.tag %s) 0))", sv.T))
 			}
+			if nonNilResults && sv.Sort == "Int" {
+				if _, isPtr := res.At(i).Type().Underlying().(*types.Pointer); isPtr {
+					g.assumeHere(fmt.Sprintf("(not (= %s 0))", sv.T))
+				}
+			}
 			out = append(out, sv)
 		}
 		return out
@@ -321,6 +326,8 @@ var simpleIntrinsics = map[string]*intrinsicDef{
 	"math/rand.Uint32": pureExtern("math/rand.Uint32 returns an arbitrary uint32", false),
 	"log.Printf":   pureExtern("log.Printf has no effect on tracked state", false),
 	"log.Println":  pureExtern("log.Println has no effect on tracked state", false),
+	"time.NewTicker":         pureExtern("time.NewTicker returns a non-nil ticker", true),
+	"(*net/rpc.Client).Go":   pureExtern("(*rpc.Client).Go returns a non-nil *Call; the reply object is shared with the RPC machinery (its content is not tracked)", true),
 	"time.Now":     pureExtern("time.Now returns an arbitrary time", false),
 	"time.Sleep":   pureExtern("time.Sleep has no effect on tracked state", false),
 	"(*sync.Mutex).Lock":      lockIntrinsic("Lock"),
